@@ -31,8 +31,9 @@ const (
 	// encode: a false bool that has to be written explicitly (slice element,
 	// map key/value, first field behind a pointer) is written as 1.
 	clsBoolWantZero = "bool-false-written-as-true"
-	// encode: an empty (or nil) map is written as one empty map entry, which
-	// the reference decodes as {default key: default value}.
+	// encode: a NON-NIL empty map is written as one empty map entry, which the
+	// reference decodes as {default key: default value}. (Nil maps were repaired
+	// by 684b018 and are not covered by the predicate any more.)
 	clsEmptyMap = "empty-map-written-as-empty-entry"
 	// decode: growing a repeated field past its first capacity of 10 calls
 	// runtime.typedslicecopy with the wrong signature: nil-dereference panic,
@@ -134,7 +135,7 @@ func diffClass(c *Case, d *ps.Diff) string {
 	case d.F.K == ps.KMap && d.F.Key == ps.KBool && (d.Slot == "len" || d.Slot == "mapkeys") && hasFalseKey(d.A):
 		// map[bool]V: the false key is written as true
 		return clsBoolWantZero
-	case d.F.K == ps.KMap && d.Slot == "len" && len(d.A.L) == 0 && len(d.B.L) == 2 && zeroEntry(&c.Schema, d.F, d.B):
+	case d.F.K == ps.KMap && d.Slot == "len" && !d.A.Nil && len(d.A.L) == 0 && len(d.B.L) == 2 && zeroEntry(&c.Schema, d.F, d.B):
 		return clsEmptyMap
 	}
 	return ""
@@ -295,9 +296,9 @@ var classes = []evid.Class{
 		Items:  []Item{{V: ps.Val{L: []ps.Val{{L: []ps.Val{num(0)}}}}}},
 	}, "encode", clsBoolWantZero)},
 	{Name: clsEmptyMap, Witness: witness(Case{
-		// message { map<string,int64> f0 = 1; int64 f1 = 2; }  v = {nil, 1}
+		// message { map<string,int64> f0 = 1; int64 f1 = 2; }  v = {map[string]int64{} (non-nil, empty), 1}
 		Schema: ps.Schema{Msgs: []ps.Message{{Fields: []ps.Field{{Num: 1, K: ps.KMap, Key: ps.KString, Val: ps.KInt64}, {Num: 2, K: ps.KInt64}}}}},
-		Items:  []Item{{V: ps.Val{L: []ps.Val{{Nil: true}, num(1)}}}},
+		Items:  []Item{{V: ps.Val{L: []ps.Val{{L: []ps.Val{}}, num(1)}}}},
 	}, "encode", clsEmptyMap)},
 }
 
@@ -346,6 +347,19 @@ func init() {
 }
 
 func TestKnownFindings(t *testing.T) { evid.RunWitnesses(t, classes) }
+
+// TestNilMapNotMarked: the nil-map half of the empty-map finding was repaired
+// (684b018); a nil map next to another field must agree with the reference.
+func TestNilMapNotMarked(t *testing.T) {
+	c := Case{
+		Schema: ps.Schema{Msgs: []ps.Message{{Fields: []ps.Field{{Num: 1, K: ps.KMap, Key: ps.KString, Val: ps.KInt64}, {Num: 2, K: ps.KInt64}}}}},
+		Items:  []Item{{V: ps.Val{L: []ps.Val{{Nil: true}, num(1)}}}},
+	}
+	evid.Eval(1)
+	for _, f := range checkAll(&c, nil) {
+		evid.Violation(t, "NilMapNotMarked", c, &f.Failure)
+	}
+}
 
 // TestWitnessesReproduce is a development aid: reports which class witnesses
 // fail on the current tree regardless of known_findings.json.
